@@ -67,6 +67,11 @@ type BloomSearchEngine struct {
 	started bool
 	stopped bool
 
+	// startOnce launches the workers (see startWorkers); it is independent of
+	// stateMu so Start and Stop can launch them while IngestRows callers hold
+	// the read lock.
+	startOnce sync.Once
+
 	// mergeMu makes Merge single-flight in-process (see ErrMergeInProgress).
 	mergeMu sync.Mutex
 
@@ -248,17 +253,27 @@ func normalizeCompression(compression CompressionType) CompressionType {
 // calls while running are no-ops, and Start after Stop is a no-op (a stopped
 // engine cannot be restarted; construct a new one).
 func (b *BloomSearchEngine) Start() {
-	b.stateMu.Lock()
-	defer b.stateMu.Unlock()
+	// Read lock, not the write lock: an IngestRows caller blocked on a full
+	// ingest buffer holds the read lock until a worker consumes its request,
+	// so launching the workers under the write lock would deadlock against
+	// callers that ingested before Start.
+	b.stateMu.RLock()
+	defer b.stateMu.RUnlock()
 
-	if b.started || b.stopped {
+	if b.stopped {
 		return
 	}
-	b.started = true
+	b.startWorkers()
+}
 
-	b.wg.Add(2)
-	go b.ingestWorker()
-	go b.flushWorker()
+// startWorkers launches the ingest and flush workers exactly once.
+func (b *BloomSearchEngine) startWorkers() {
+	b.startOnce.Do(func() {
+		b.started = true
+		b.wg.Add(2)
+		go b.ingestWorker()
+		go b.flushWorker()
+	})
 }
 
 // Stop gracefully shuts down the engine. Ingest requests accepted before Stop
@@ -282,6 +297,11 @@ func (b *BloomSearchEngine) Stop(ctx context.Context) error {
 	// deadline. The AfterFunc is dropped on a graceful finish, leaving
 	// flushCtx live.
 	stopAfter := context.AfterFunc(ctx, b.flushCancel)
+
+	// A never-started engine may already hold accepted requests (and callers
+	// blocked on a full ingest buffer): run the workers so the shutdown drain
+	// below answers them instead of dropping them silently.
+	b.startWorkers()
 
 	b.stateMu.Lock()
 	b.stopped = true
